@@ -16,7 +16,8 @@ func (i *Item) DedupeItems() error {
 			continue
 		}
 		if existing, ok := urls[node.url.String()]; ok {
-			if existing.status != ItemCompleted && !existing.IsSeed() && node.status == ItemCompleted { // Keep the completed item
+			if !existing.IsSeed() && ((existing.status != ItemCompleted && node.status == ItemCompleted) || // Keep the completed item
+				(existing.status == ItemFresh && node.status != ItemFresh)) { // Keep the item that was already processed (its children may still need work) over a fresh duplicate
 				existing.parent.RemoveChild(existing)
 				urls[node.url.String()] = node
 			} else {
